@@ -32,6 +32,40 @@ CLAIMED = {
          "deadlock (also under writer preference); (3) livelock: step budget on every explored case. NOT proved: that the whole crate follows one lock "
          "ranking for every pipeline - that part is exploration (shuttle deadlock detector on all concurrent scenarios).",
          "§5 C07", "Lean 4 proof (lock-order theorem, partial) + exploration of re-entrant and concurrent scenarios with deadlock detection"),
+ "C03": ("Theorems Rx.Comb.merge_spec, amb_spec, concat_spec, zip_spec/zip_items/zip_timing, take_until_spec, skip_until_spec, sample_spec, flat_map_spec, "
+         "ready_set_go_no_loss: the pure history machine of each combining operator (mirroring its closures and the StreamController) equals its ReactiveX "
+         "list characterisation for ALL well-formed histories and any number of sources. combine_latest and sequence_equal are proved NOT to be the "
+         "ReactiveX operators (combine_latest_violated, sequence_equal_violated, with partial theorems) - recorded as known findings F9/F10. "
+         "Tie: on every hot-source history the check compares implementation = history machine = spec, and implementation = object machine on all cases.",
+         "§5 C03", "Lean 4 proof: history machines = list specs by induction + per-run three-way differential correspondence"),
+ "C06": ("Theorems Rx.C06.*: (kernel layer) every single-source kernel that ends its downstream while being fed has cancelled its upstream, for all inputs; "
+         "(machine layer, from Rx.Sim.stdOp_sim_cancel) in the object machine - StreamController transliterated call by call - the observer an operator handed "
+         "to its source is unsubscribed exactly when the kernel semantics says cancelled, from ANY ready start world; take/take_while stop an endless producer. "
+         "Multi-input teardown is covered by the history machines of C03 (per-input cancellation) and by exploration. Tie: probed sources recording "
+         "is_subscribed before every emission, subject observer counts, every terminating cause of the statement; TornDown predicate on implementation traces.",
+         "§5 C06", "Lean 4 proof: simulation theorem machine = kernel semantics incl. cancellation + per-run correspondence on probed sources"),
+ "C08": ("Theorems Rx.Queue.* (C08.lean, 21 main theorems) on the lock-level LTS of async_function_queue.rs for any number of posters, any programs, tasks "
+         "that post/abort from inside, all interleavings: one_at_a_time, at_most_once, fifo, partition, no_take_after_abort (no pop after abort; at most one "
+         "task already popped may still start - the strict reading is proved false of the code and is not what the property demands), worker_exits "
+         "(ranking), no_lost_wakeup, progress (ranking), default_scheduler_sync. Tie: every explored schedule of the real scheduler is replayed step by "
+         "step through the LTS (co-simulation) and the model's FIFO order is compared with the tasks' own start stamps.",
+         "§5 C08", "Lean 4 proof: inductive invariants + ranking functions over an n-thread lock-level LTS + co-simulation of explored schedules"),
+ "C12": ("Theorems Rx.Conc.* (C12.lean) on lock-level LTSs of Subject, ReplaySubject, BehaviorSubject for any number of threads and programs: "
+         "stays_subscribed_gets_all, per_producer_gap_free, no_duplicates, late_subscriber_suffix, unsubscriber_prefix. The late-subscriber clauses for "
+         "Replay/Behavior are proved FALSE under concurrency (replay_late_subscriber_violated, behavior_late_subscriber_violated: shortest witness "
+         "schedules) with partial theorems for non-overlapping subscribe - known findings F14. Tie: producer / late-subscriber / unsubscriber threads on the "
+         "real subjects under seeded schedules with the property's predicates on the recorded deliveries (no co-simulation for these LTSs yet).",
+         "§5 C12", "Lean 4 proof: LTS invariants + negation witnesses + exploration of the real subjects under seeded schedules"),
+ "C14": ("Theorems Rx.C14.subscribe_independent, every_subscription_is_the_kernel_run, others_undisturbed, stays_ready (from the simulation theorem "
+         "Rx.Sim.stdOp_sim, for every standard operator and ANY ready start world): the k-th subscriber of an Observable value sees what a sole subscriber "
+         "would. Tie: every pipeline subscribed 2-3 times sequentially, interleaved on a hot source, and under retry with differing attempts; tap side "
+         "effects compared per subscription.",
+         "§5 C14", "Lean 4 proof: simulation theorem quantified over the start world + per-run correspondence with repeated subscription"),
+ "C17": ("Theorems Rx.C17.callbacks_released_after_terminal/unsubscribe, released_forever, root_slots_empty, callbacks_only_in_root (generic over all machine "
+         "programs): after a subscription ended no core object holds any of the three user callbacks, ever again. Operator closures and buffered items "
+         "are owned by upstream observers' slots, cleared when cancelled (C06). NOT modelled: Arc reference counting itself - the per-run check counts live "
+         "tokens captured by every user callback, operator closure and item after the handles are dropped, for all three ways of ending.",
+         "§5 C17", "Lean 4 proof: generic ownership invariant over all machine programs + per-run token counting"),
  "C18": ("Theorems Rx.C18.* on the lock-level LTS of to_vec.rs (ready_only_after_terminal, result_exact, no_lost_wakeup, eventually_ready, polls_bound, "
          "pending_forever_if_silent) for all scripts and interleavings. Tie: every explored shuttle schedule of the real poll/callbacks is replayed "
          "step by step through the LTS (co-simulation) and the returned value is compared.",
@@ -57,8 +91,8 @@ m = {"version": 1, "setup_cmd": "./setup.sh",
                "baseline_off_cmd": "cd /repo && cargo test --workspace --no-fail-fast --offline", "source_commits": [], "add_only": True},
      "engines": [
          {"name": "lean", "path": "lean", "serves_properties": sorted(CLAIMED), "kind_free_text": "Lean 4 models (object machine, kernels, specs, lock-level LTSs), theorems, compiled driver rxmodel (run / oracle / spec / cosim modes)"},
-         {"name": "harness-seq", "path": "harness/seq", "serves_properties": [p for p in sorted(CLAIMED) if p in ("C01", "C02", "C04", "C05", "C07")], "kind_free_text": "Rust harness executing the shared case language on the instrumented copy (self-deadlock detection, operation budget)"},
-         {"name": "harness-conc", "path": "harness/conc", "serves_properties": [p for p in sorted(CLAIMED) if p in ("C05", "C07", "C18", "C19")], "kind_free_text": "Rust harness running scenarios under seeded shuttle schedules on the shuttle-instrumented copy; renders label traces for co-simulation"},
+         {"name": "harness-seq", "path": "harness/seq", "serves_properties": [p for p in sorted(CLAIMED) if p in ("C01", "C02", "C03", "C04", "C05", "C06", "C07", "C10", "C13", "C14", "C17")], "kind_free_text": "Rust harness executing the shared case language on the instrumented copy (self-deadlock detection, operation budget)"},
+         {"name": "harness-conc", "path": "harness/conc", "serves_properties": [p for p in sorted(CLAIMED) if p in ("C05", "C07", "C08", "C09", "C11", "C12", "C15", "C16", "C18", "C19")], "kind_free_text": "Rust harness running scenarios under seeded shuttle schedules on the shuttle-instrumented copy; renders label traces for co-simulation"},
          {"name": "orchestrator", "path": "check", "serves_properties": sorted(CLAIMED), "kind_free_text": "python3: generators, diff, oracle, shrinker, known findings, evidence"}],
      "checks": checks, "not_applicable": na,
      "notes": "Genuine defects found by the machinery were repaired by fix: commits in /repo; see known_findings.json (fixed entries) and DESIGN.md §8/§10."}
